@@ -224,6 +224,44 @@ m = re.search(r"if \(s == (\d+)\)[^\n]*\n\s*s = (\d+);", dh)
 if not m:
     die("jdlhuff.c: 'if (s == 16) s = 32768' not found")
 
+# ---------------------------------------------------------------- suspension inside an MCU row
+def strip_comments(t):
+    return re.sub(r"/\*.*?\*/", "", t, flags=re.S)
+
+
+dhc = strip_comments(dh)
+mm = re.search(r"\ndecode_mcus\s*\(", dhc)
+if not mm:
+    die("jdlhuff.c: decode_mcus not found")
+k = dhc.find("for (mcu_num = 0; mcu_num < nMCU; mcu_num++) {", mm.end())
+if k < 0:
+    die("jdlhuff.c: the MCU loop of decode_mcus not found")
+depth, j = 0, dhc.index("{", k)
+start = j
+while True:
+    if dhc[j] == "{":
+        depth += 1
+    elif dhc[j] == "}":
+        depth -= 1
+        if depth == 0:
+            break
+    j += 1
+loop_body = dhc[start + 1:j]
+# the statements directly inside the MCU loop (nested blocks removed)
+flat, depth = "", 0
+for ch in loop_body:
+    if ch == "{":
+        depth += 1
+    elif ch == "}":
+        depth -= 1
+    elif depth == 0:
+        flat += ch
+save_per_mcu = bool(re.search(r"BITREAD_SAVE_STATE\(cinfo, entropy->bitstate\);", flat))
+fail_actions = len(re.findall(r"(?:HUFF_DECODE|CHECK_BIT_BUFFER)\([^;]*return mcu_num", loop_body))
+ddc = strip_comments(dd)
+ctr_adv = bool(re.search(r"diff->MCU_ctr \+= MCU_count;", ddc)) and \
+    bool(re.search(r"decode_mcus\) \(cinfo,\s*diff->diff_buf, yoffset, MCU_col_num,\s*cinfo->MCUs_per_row - MCU_col_num\)", ddc))
+
 print("(* GENERATED by tools/gen_Lossless.py from src/jlossls.h, jclossls.c, jdlossls.c, jddiffct.c, jclhuff.c, jdlhuff.c -- do not edit *)")
 print("From Coq Require Import List ZArith.\nImport ListNotations.\nLocal Open Scope Z_scope.\n")
 print("(* jlossls.h PREDICTOR1..7, translated term by term ((int)/(JLONG) casts dropped, RIGHT_SHIFT = Z.shiftr) *)")
@@ -244,5 +282,10 @@ print("(* the mask of every reconstruction 'Ra = (diff + P) & mask' of UNDIFFERE
 print("Definition gen_undiff_masks : list Z := [%s].\n" % "; ".join(str(x) for x in masks))
 print("(* jclhuff.c: temp & SIGN, (-temp) & NEGMASK, temp &= POSMASK, magnitude BIG, no extra bits for category NOEXTRA;")
 print("   jdlhuff.c: category CAT16 decodes to VAL16 *)")
+print("(* jdlhuff.c decode_mcus: BITREAD_SAVE_STATE is a statement of the per-MCU loop body (state committed after every")
+print("   completed MCU); both suspension exits are 'return mcu_num'; jddiffct.c resumes at MCU_ctr += MCU_count *)")
+print("Definition gen_bitread_save_per_mcu : bool := %s." % ("true" if save_per_mcu else "false"))
+print("Definition gen_suspend_returns_mcu_num : bool := %s." % ("true" if fail_actions == 2 else "false"))
+print("Definition gen_resume_at_mcu_ctr : bool := %s.\n" % ("true" if ctr_adv else "false"))
 print("Definition gen_huff_consts : list Z := [%d; %d; %d; %d; %s; %s; %s]." % (
     int(sign[0], 16), int(negm[0], 16), int(posm[0], 16), int(big[0], 16), noex[0], m.group(1), m.group(2)))
